@@ -1024,7 +1024,9 @@ func c16BidData(v string, ts uint64) string {
 	return d
 }
 
-var c16RelayAddrs = []string{c16Relay1, c16Relay2, "", "%zz", "http://[::1"}
+// The last two parse as URLs (or nearly) but are refused when the relay client is built; no stand-in is
+// registered for them, so vouch's own client construction runs.
+var c16RelayAddrs = []string{c16Relay1, c16Relay2, "", "%zz", "http://[::1", "https://0xnothexadecimal@relay3.example.com", "relay3.example.com:notaport"}
 
 type c16BidStrategy interface {
 	BuilderBid(ctx context.Context, slot phase0.Slot, parentHash phase0.Hash32, pubkey phase0.BLSPubKey, proposerConfig *beaconblockproposer.ProposerConfig, builderConfigs map[phase0.BLSPubKey]*blockrelay.BuilderConfig) (*blockauctioneer.Results, error)
@@ -1144,7 +1146,9 @@ func c16BidUnits(tier string) []hx.Unit {
 								c.pub = &rp
 							}
 							// unparsable addresses never reach the client table; registering them is harmless
-							util.VerifSetBuilderClient(addr, c)
+							if a < 5 {
+								util.VerifSetBuilderClient(addr, c)
+							}
 						}
 						mkClient(a1, body)
 						if a2 >= 0 {
@@ -1162,6 +1166,9 @@ func c16BidUnits(tier string) []hx.Unit {
 						ctx, cancel := mcontext.WithTimeout(context.Background(), 20*time.Second)
 						defer cancel()
 						st.call(func() {
+							// two auctions in a row, as for two proposals of one run of vouch: relay clients are kept
+							// between them
+							_, _ = s.BuilderBid(ctx, c16Slot, c16ParentHash, v1.pubkey(), pcs[0], bcfg)
 							res, err := s.BuilderBid(ctx, c16Slot, c16ParentHash, v1.pubkey(), pcs[0], bcfg)
 							switch {
 							case err != nil:
@@ -1963,7 +1970,7 @@ func init() {
 		Title: "No data from a beacon node, relay or configuration can crash Vouch",
 		Rule: "each consumer of external data is driven through the entry point by which the data really arrives, inside the controlled runtime (a panic in any goroutine Vouch starts is observed), over bounded grammars whose JSON texts pass through the client libraries' own decoders and the mirrored post-decode checks of their HTTP clients: " +
 			"execution configurations = the v1 and v2 documents with every position (to depth 5) replaced by {absent, null, \"\", wrong type, other valid/invalid values}, all single and pairwise (thorough: triple) replacements, then ProposerConfig for 2 validators; " +
-			"builder bids = both auction strategies x relay addresses {URL, bare host, \"\", \"%zz\", \"http://[::1\"} (1-2 relays) x bid versions x every single replacement of a member of the bid (to depth 4) by {absent, null, empty, zero} plus no-content/error/null-data/version-less answers x relay key absent/configured/delivered x builder configurations; " +
+			"builder bids = both auction strategies x relay addresses {URL, bare host, \"\", \"%zz\", \"http://[::1\", a URL whose user part is no public key, host:notaport} (1-2 relays), two auctions in a row, x bid versions x every single replacement of a member of the bid (to depth 4) by {absent, null, empty, zero} plus no-content/error/null-data/version-less answers x relay key absent/configured/delivered x builder configurations; " +
 			"proposals = Prepare+Propose of the real proposer for phase0..deneb x blinded header x auctioneer {none, error, no relays, no winner, winner, winner that cannot unblind} x every single replacement in the proposal (to depth 4) x value headers x unblinding answers {block, 400, error, no data}; the same proposals through the best proposal strategy with 1-2 nodes; " +
 			"graffiti = 16 file contents of the dynamic provider (plain, 32 bytes, longer, {{CLIENT}} templates, missing, error) x node client names of length 0,1,4,8,10,40 / error / no name, through proposer and best strategy; " +
 			"attester duties = all lists up to length 3 (thorough 4) over 13 elements (duplicates, out-of-epoch, slot 2^63 and 2^64-1, unknown validator, zero fields, null, {}); head and block events with zero / maximal fields and without data, the fetched block being any single replacement (to depth 5) of a signed block of each version, at service start and on the event, for the cache and the proposal strategy; " +
